@@ -212,7 +212,18 @@ def check(ctx):
             if (i, k) in lt and lt[(i, k)] is not True:
                 ctx.fail("C14/not-transitive", dict(kind="triple", a=repr(P[i]), b=repr(P[j]), c=repr(P[k])), "a<b<c but not a<c")
     ctx.notes["transitivity_triples_checked"] = nt
-    # tables
+    # tables.  First a graph whose node table has no MethodDeclarationId column at all (a nodeset without methods) is normalised: whatever that leaves
+    # behind in the process must not change the tables of the graphs that follow
+    try:
+        from opcua_tools.ua_graph import UAGraph
+        small = pd.DataFrame([{k: v for k, v in r.items() if k != "MethodDeclarationId"} for r in tables[0][0]]) if tables else None
+        if small is not None:
+            for c in ["ParentNodeId", "DataType", "id"]: small[c] = small[c].astype(pd.Int64Dtype())
+            g0 = UAGraph(nodes=small, references=pd.DataFrame({"Src": pd.Series([], dtype="int64"), "Trg": pd.Series([], dtype="int64"), "ReferenceType": pd.Series([], dtype="int64")}),
+                         namespaces=["http://opcfoundation.org/UA/", "urn:a", "urn:b"], models=[])
+            g0.get_normalized_nodes_df(); g0.get_normalized_nodes_df("urn:a")
+    except BaseException as e:
+        ctx.notes["methodless_graph"] = "normalising a node table without a MethodDeclarationId column raised %s" % type(e).__name__
     for t, (rows, refs) in enumerate(tables):
         out = impl_tables(rows, refs)
         ctx.record(["table", [[str(r[c]) for c in ["id"] + NODE_COLS + REF_COLS] for r in rows], refs], len(rows) >= 3, ["table"])
